@@ -203,7 +203,7 @@ class Gen:
             yield from self.count_variants(name)
         for name in HEADER_BASIS:
             for c in self.header_variants(name):
-                if quick and (len(c["acks"]) > 3 or len(c["extra"]) > 3):
+                if quick and (len(c["acks"]) > 3 or len(c["extra"]) > 16):
                     continue
                 yield c
 
@@ -254,7 +254,8 @@ def _hdr(flags, pid, acks, extra):
 
 
 ACKS = [(), (1,), (0xFFFFFFFF, 0, 7), tuple(range(1000, 1255))]
-EXTRAS = [b"", b"\x00", b"\x01\x00\xff", bytes((i % 3) for i in range(255))]
+# the 14-byte member is six+ isolated zero bytes: each grows to 00 01 when zero-coded, which stresses the header peek window
+EXTRAS = [b"", b"\x00", b"\x01\x00\xff", b"\x00\x07" * 7, bytes((i % 3) for i in range(255))]
 PIDS = [0, 1, 0xFFFFFFFF]
 
 # each-choice list: every flag subset, every id, every ack list, every extra occurs at least once.
@@ -262,7 +263,7 @@ HEADER_EACH_CHOICE = []
 for _i, _f in enumerate(range(16)):
     _flags = (_f & 1) * 0x80 | ((_f >> 1) & 1) * 0x40 | ((_f >> 2) & 1) * 0x20 | ((_f >> 3) & 1) * 0x10
     _acks = ACKS[_i % 4] if _flags & 0x10 else ()
-    HEADER_EACH_CHOICE.append(_hdr(_flags, PIDS[_i % 3], _acks, EXTRAS[(_i // 2) % 4]))
+    HEADER_EACH_CHOICE.append(_hdr(_flags, PIDS[_i % 3], _acks, EXTRAS[(_i // 2) % 5]))
 HEADER_EACH_CHOICE.sort(key=lambda h: (len(h["acks"]) + len(h["extra"]), h["flags"]))
 
 HEADER_FULL = []
